@@ -348,6 +348,19 @@ def fanout_ok_family(tier="quick"):
     itc["States"]["I"].pop("Next", None)
     add("map-mc2-caught-iteration", chain(("M", Map(itc, MaxConcurrency=2, ItemSelector={"v.$": "$$.Map.Item.Value"})), Z), inp=[0, 1, 2] if tier == "quick" else [0, 1, 2, 3],
         workers={"fi": {json.dumps({"v": 0}): ERR(), "*": [["echo"]]}, "ffix": {"*": [["ok", "fixed"]]}}, maxc={"fi": 2})
+    # a branch whose own Task failure is caught inside the branch: the join must wait for the recovery Task
+    rec = chain(("A1", Task("f_A1", Catch=[{"ErrorEquals": ["States.ALL"], "Next": "A2", "ResultPath": "$.e"}])), ("A2", Task("f_A2")))
+    add("par-caught-recovering", chain(("P", Parallel([rec, _branch("B", 1)])), Z),
+        workers={"f_A1": {"*": ERR("E9")}, "f_A2": {"*": [["delay", ["ok", "a2"]]]}, "f_B1": {"*": [["ok", "b"]]}})
+    add("map-caught-iteration-no-mc", chain(("M", Map(itc, ItemSelector={"v.$": "$$.Map.Item.Value"})), Z), inp=[0, 1],
+        workers={"fi": {json.dumps({"v": 0}): ERR(), "*": [["echo"]]}, "ffix": {"*": [["delay", ["ok", "fixed"]]]}})
+    # a Map nested in an iteration of a Map that runs in MaxConcurrency batches
+    inner = chain(("N", Map(chain(("J", Task("fj"))), ItemsPath="$")))
+    add("map-in-map-outer-mc1", chain(("M", Map(inner, ItemsPath="$.rows", MaxConcurrency=1)), Z), inp={"rows": [[1, 2], [3, 4]]}, workers={"fj": {"*": [["echo"]]}})
+    add("map-in-map-both-mc1", chain(("M", Map(chain(("N", Map(chain(("J", Task("fj"))), ItemsPath="$", MaxConcurrency=1))), ItemsPath="$.rows", MaxConcurrency=1)), Z),
+        inp={"rows": [[1, 2], [3]]}, workers={"fj": {"*": [["echo"]]}})
+    add("par-in-map-mc1", chain(("M", Map(chain(("P", Parallel([_branch("A", 1), _branch("B", 1, "pass")]))), MaxConcurrency=1)), Z), inp=[1, 2],
+        workers={"f_A1": {"*": [["echo"]]}})
     if tier == "thorough":
         add("par-3x2", chain(("P", Parallel([_branch("A", 2), _branch("B", 2), _branch("C", 2)])), Z))
         add("par-4x1", chain(("P", Parallel([_branch(c, 1) for c in "ABCD"])), Z))
@@ -443,6 +456,9 @@ def child_family(tier="quick"):
                    child_arn=exec_arn("c", "c1"), parent_arn=exec_arn("m", "p1"), **kw)
         out.append(sc)
     add("child-async", chain(("L", launch("start")), Z), child_ok, form="start")
+    # parent and child of different types: what is recorded for each is decided by its own type
+    add("child-async-express-parent", chain(("L", launch("start")), Z), child_ok, ptype="EXPRESS", form="start-mixed")
+    add("child-async-express-child", chain(("L", launch("start")), Z), child_ok, ctype="EXPRESS", form="start-mixed")
     for form in ("sync", "sync2"):
         add("child-%s-ok" % form, chain(("L", launch(form)), Z), child_ok, form=form)
         add("child-%s-fails" % form, chain(("L", launch(form)), Z), child_fail, form=form)
